@@ -193,3 +193,17 @@ Example completed_example :
                    PeerWithdrawn 2; EorReceived 1 131073] in
   is_completed s = true.
 Proof. vm_compute. reflexivity. Qed.
+
+(* ---------------------------------------------------------------- finding C11-1
+   The faithful model of the unfixed code releases a family twice on a
+   disciplined history: peer 2 (GR for IPv6 only) sends End-of-RIB for IPv4
+   after IPv4 was already released when peer 1 came up without GR. *)
+Lemma C11_family_released_exactly_once_refuted :
+  exists (c : config) (ins : list rdinput) (f : fam),
+    disciplined c ins = true /\ deferred c f = true /\
+    (releases f (rd_trace (fst (rd_new c (Some 360))) ins) > 1)%nat.
+Proof.
+  exists [(1, [65537; 131073]); (2, [131073])],
+         [PeerEstablished 1 []; PeerEstablished 2 [131073]; EorReceived 2 65537], 65537.
+  vm_compute. repeat split; lia.
+Qed.
